@@ -632,7 +632,7 @@ var stubSets = map[string]map[string]externalFn{
 		},
 		"(*os.File).Read": func(fr *frame, args []value) value {
 			if p, ok := args[0].(*value); ok && p == nil {
-				return tuple{0, loadGlobalErr(fr, "os", "ErrInvalid")}
+				return tuple{0, fr.i.mkError("invalid argument")}
 			}
 			e := pipeEndOf(fr, args[0])
 			if e != nil && e.write {
@@ -656,7 +656,7 @@ var stubSets = map[string]map[string]externalFn{
 		},
 		"(*os.File).Write": func(fr *frame, args []value) value {
 			if p, ok := args[0].(*value); ok && p == nil {
-				return tuple{0, loadGlobalErr(fr, "os", "ErrInvalid")}
+				return tuple{0, fr.i.mkError("invalid argument")}
 			}
 			e := pipeEndOf(fr, args[0])
 			if e != nil && !e.write {
@@ -675,7 +675,7 @@ var stubSets = map[string]map[string]externalFn{
 		},
 		"(*os.File).WriteString": func(fr *frame, args []value) value {
 			if p, ok := args[0].(*value); ok && p == nil {
-				return tuple{0, loadGlobalErr(fr, "os", "ErrInvalid")}
+				return tuple{0, fr.i.mkError("invalid argument")}
 			}
 			e := pipeEndOf(fr, args[0])
 			if e != nil && !e.write {
